@@ -120,6 +120,21 @@ def validate(recs, dump, nl_counts):
                     if cls in linked: linked[cls].update(_idx_list(ref) or [])
         miss = [i for i in range(nl_counts['algcons'] + nl_counts['logcons']) if i not in linked['src_cons()']]
         if miss: out.append(('C20 NL constraint is the source of no link record', {'indexes': miss[:10], 'count': len(miss)}))
+        # ... and every stored constraint is the destination of at least one link record (it was created for something)
+        dest = set()
+        for l in links:
+            for node in l.get('dest_nodes', []):
+                if isinstance(node, dict) and len(node) == 1:
+                    (cls, ref), = node.items()
+                    for i in (_idx_list(ref) or []): dest.add((cls, i))
+        orphan = collections.defaultdict(list)
+        for (t, i), lst in con_create.items():
+            deep = min(r.get('depth', 0) for r in lst) > 0
+            if not deep and t in ('_sos1', '_sos2'): continue            # SOS sets declared by suffixes have no NL constraint as source
+            if (t, i) not in dest: orphan[(t, deep)].append(i)
+        for (t, deep), idxs in sorted(orphan.items()):
+            out.append(('C20 stored constraint is the destination of no link record (type %s, %s)' % (t, 'created by a conversion' if deep else 'top level'),
+                        {'type': t, 'indexes': sorted(idxs)[:10], 'count': len(idxs)}))
     # --- delivered == final
     if dump is not None:
         # variables and objectives of the delivered model appear
